@@ -208,7 +208,7 @@ def hostkey_section(ctx, H, quick, rnd, state):
         rnd.shuffle(tab)
         disc = [h for h in tab if hk_discriminating(h)]
         rest = [h for h in tab if not hk_discriminating(h)]
-        nd, nr = (110, 40) if quick else (1500, 500)
+        nd, nr = (110, 40) if quick else (900, 300)
         for h in disc[:nd] + rest[:nr]:
             run_one(h, None)
         # interleavings: two connections of the history, every order of the
@@ -225,7 +225,7 @@ def hostkey_section(ctx, H, quick, rnd, state):
             seen.add(k)
             pairs.append(h2)
         scheds = H.interleavings(2)
-        for n, h2 in enumerate(pairs[:(30 if quick else 400)]):
+        for n, h2 in enumerate(pairs[:(30 if quick else 250)]):
             for sch in scheds:
                 run_one(h2, sch)
         if not quick:
@@ -331,8 +331,10 @@ def main(ctx):
                     EditListMode='"few"', workers=W)
             tlc_run(ctx, 'rsa 2 edits', KexType='"rsa"', MaxEdits=2,
                     EditListMode='"few"', TrustAllSet='{FALSE, TRUE}', workers=W)
-            tlc_run(ctx, 'dh 0 edits, kex+enc+mac lists vary', KexType='"dh"',
-                    MaxEdits=0, VaryCats='{"kex", "enc", "mac"}', workers=W)
+            tlc_run(ctx, 'dh 0 edits, kex+enc lists vary', KexType='"dh"',
+                    MaxEdits=0, VaryCats='{"kex", "enc"}', workers=W)
+            tlc_run(ctx, 'dh 0 edits, hostkey+mac lists vary', KexType='"dh"',
+                    MaxEdits=0, VaryCats='{"hostkey", "mac"}', workers=W)
             tlc_run(ctx, 'dh 1 edit, hostkey+cmp lists vary', KexType='"dh"',
                     VaryCats='{"hostkey", "cmp"}', EditListMode='"few"',
                     workers=W)
